@@ -30,7 +30,7 @@ ASSUMPTIONS = [
     "SVG 1.1 property index: fill, stroke, stroke-width, opacity properties, color, font properties, display (as subtree suppression) may propagate; transform is accumulated on purpose.",
     "href/xlink:href carried by use and vector-effect (not inherited in SVG 2) also propagate today; they are reported in the evidence notes but are outside the property's geometry vocabulary.",
 ]
-FLOORS = {"R03.1": 3, "R03.2": 2, "R03.3": 2, "R03.4": 3, "R03.5": 4, "R03.7": 20, "R03.8": 8}
+FLOORS = {"R03.1": 3, "R03.2": 2, "R03.3": 2, "R03.4": 3, "R03.5": 4, "R03.7": 20, "R03.8": 8, "R03.11": 150, "R03.12": 10}
 
 SHAPE_TAGS = {"SVG_TAG_PATH": "Path", "SVG_TAG_CIRCLE": "Circle", "SVG_TAG_ELLIPSE": "Ellipse", "SVG_TAG_LINE": "SimpleLine", "SVG_TAG_POLYLINE": "Polyline",
               "SVG_TAG_POLYGON": "Polygon", "SVG_TAG_RECT": "Rect", "SVG_TAG_IMAGE": "Image"}
@@ -49,6 +49,8 @@ def run(ctx):
     ctx.rule("R03.8", "shape dispatch")
     ctx.rule("R03.9", "nested svg origin reaches the transform with and without a viewBox")
     ctx.rule("R03.10", "viewport state is saved and restored with the element context")
+    ctx.rule("R03.12", "reify=True and reify=False give the same geometry: folding the matrix into rect / round-shape attributes is exact (obligations shared with C02)")
+    ctx.rule("R03.11", "the viewport transform each enclosing svg contributes is the SVG 2 8.2 one (obligations shared with C11)")
     fn = ctx.fn("SVG.parse", "R03.1")
     loop = [s for s in fn.body if isinstance(s, ast.For)]
     ctx.need(len(loop) == 1, "R03.1", "event loop not found")
@@ -72,6 +74,12 @@ def run(ctx):
     dispatch(ctx, start)
     svg_origin(ctx, start)
     viewport_state(ctx, fn, start, end)
+    from . import c11
+
+    c11.run(ctx.renamed("R03.11"))
+    from . import c02
+
+    c02.reify_algebra(ctx.renamed("R03.12"))
 
 
 def viewport_state(ctx, fn, start, end):
